@@ -319,3 +319,47 @@ func (x *searcher) replCallbackProtocol(r *vlib.Run) {
 		}
 	}
 }
+
+// ---- C18 (e): two builds on one loaded Project (REPL, library use): each build delivers its own
+// output lines exactly once ----
+
+func (x *searcher) doubleRunLines(r *vlib.Run) {
+	files := map[string]string{
+		"dawn.toml":  "name = \"p\"\n",
+		"BUILD.dawn": "def _t(t):\n    say(\"line one\\npartial\")\ntarget(name=\"t\", function=_t, always=True)\n",
+	}
+	var runs [][]string
+	x.withRoot(func(root string) {
+		writeTree(root, files)
+		rec := newRecorder()
+		be := &bodyEnv{root: root, fail: map[string]bool{}}
+		proj, err := dawn.Load(root, &dawn.LoadOptions{Events: rec, Builtins: be.builtins()})
+		if err != nil {
+			vlib.Fatalf("double-run project does not load: %v", err)
+		}
+		l, _ := label.Parse("//:t")
+		for i := 0; i < 3; i++ {
+			rec.mu.Lock()
+			rec.ev = nil
+			rec.mu.Unlock()
+			if err := proj.Run(l, nil); err != nil {
+				vlib.Fatalf("double-run project does not build: %v", err)
+			}
+			var lines []string
+			for _, e := range rec.ev {
+				if e.Kind == "Print" && e.Label == "//:t" {
+					lines = append(lines, e.Line)
+				}
+			}
+			runs = append(runs, lines)
+		}
+	})
+	r.Add("double_run_builds", int64(len(runs)))
+	for i, lines := range runs {
+		if strings.Join(lines, "|") != "line one|partial" {
+			x.r.Violation("C18:lines:stale-partial-line-on-reused-project", fmt.Sprintf("build %d on one loaded Project delivered the lines %q for a body that writes \"line one\\npartial\"", i+1, lines),
+				map[string]any{"files": files, "lines_per_build": runs})
+			break
+		}
+	}
+}
